@@ -19,4 +19,5 @@ AVRows == { <<>>, <<AV(0)>>, <<AV(1), AV(0)>>, <<AV(0), AV(0), AV(1)>>, <<AV(1),
 BM2 == {"exact", "unb"}
 BM4 == {"exact", "loose", "zero", "unb"}
 BM1 == {"exact"}
+SwitchOn == TRUE
 =============================================================================
